@@ -523,13 +523,45 @@ namespace vh
             Stats& st = stats();
             size_t total = enum_count();
             size_t from = static_cast<size_t>(enum_from), to = enum_to < 0 ? total : std::min<size_t>(total, static_cast<size_t>(enum_to));
-            for (size_t k = from; k < to && !st.violated; ++k)
+            // A failing case is re-run twice at once.  3/3 = a stable reproducer: stop (for the
+            // deterministic properties this is the first failure, as before).  Fewer (possible
+            // only where a thread schedule takes part): keep the most stable one seen so far and
+            // go on - another case of the slice may be the deterministic reproducer of the same
+            // fault (seeded change C11-E: flaky under several order constraints, certain under one).
+            int best = 0;
+            std::string b_kind, b_detail, b_desc;
+            std::vector<uint8_t> b_bytes;
+            for (size_t k = from; k < to && best < 3; ++k)
             {
                 auto bytes = enum_case(k);
                 Ctx c;
                 Outcome o = run_one(bytes, c, true);
-                if (o == VIOL)
-                    st.violated = true;
+                if (o != VIOL)
+                    continue;
+                std::string kind = st.v_kind, detail = st.v_detail, desc = st.v_desc;
+                int fails = 1;
+                for (int rep = 0; rep < 2; ++rep)
+                {
+                    Ctx c2;
+                    if (run_one(bytes, c2, false) == VIOL)
+                        ++fails;
+                }
+                if (fails > best)
+                {
+                    best = fails;
+                    b_kind = kind;
+                    b_detail = detail + " [failed " + std::to_string(fails) + " of 3 immediate runs]";
+                    b_desc = desc;
+                    b_bytes = bytes;
+                }
+            }
+            if (best > 0)
+            {
+                st.violated = true;
+                st.v_kind = b_kind;
+                st.v_detail = b_detail;
+                st.v_desc = b_desc;
+                st.v_bytes = b_bytes;
             }
             if (!out.empty())
             {
